@@ -456,6 +456,208 @@ func (n nilState) String() string {
 	return "unknown"
 }
 
+// localCellOfLoad: v is a load of a local variable cell of its own function
+// whose address does not escape and which closures, if they capture it, only
+// read (the deferred `if err != nil { cleanup }`).
+func localCellOfLoad(v ssa.Value) *ssa.Alloc {
+	u, ok := v.(*ssa.UnOp)
+	if !ok || u.Op != token.MUL {
+		return nil
+	}
+	al, ok := u.X.(*ssa.Alloc)
+	if !ok || cellEscapes(al) {
+		return nil
+	}
+	for _, st := range cellStores(al) {
+		if st.Parent() != al.Parent() {
+			return nil // written by a closure: stores are not all in sight
+		}
+	}
+	return al
+}
+
+// noStoreBetween: no store into cell can execute after `from` (an instruction
+// whose block dominates b) and before the end of block b.
+func noStoreBetween(cell *ssa.Alloc, from ssa.Instruction, b *ssa.BasicBlock) bool {
+	return noStoreBetweenUpTo(cell, from, b, nil)
+}
+
+// noStoreBetweenUpTo: as noStoreBetween, but only up to instruction upTo of
+// block b (nil: to the end of b).
+func noStoreBetweenUpTo(cell *ssa.Alloc, from ssa.Instruction, b *ssa.BasicBlock, upTo ssa.Instruction) bool {
+	fb := from.Block()
+	if fb != b && !fb.Dominates(b) {
+		return false
+	}
+	// blocks that can reach b
+	reachB := map[*ssa.BasicBlock]bool{b: true}
+	work := []*ssa.BasicBlock{b}
+	for len(work) > 0 {
+		x := work[len(work)-1]
+		work = work[:len(work)-1]
+		if x == fb {
+			continue // paths are cut at the dominating block
+		}
+		for _, p := range x.Preds {
+			if !reachB[p] {
+				reachB[p] = true
+				work = append(work, p)
+			}
+		}
+	}
+	for _, st := range cellStores(cell) {
+		sb := st.Block()
+		if sb == fb {
+			if instrIndexIn(st) > instrIndexIn(from) {
+				return false
+			}
+			continue
+		}
+		if sb == b && upTo != nil && instrIndexIn(st) > instrIndexIn(upTo) {
+			// after the point of interest — unless b is in a cycle that comes back
+			inCycle := false
+			for _, p := range b.Preds {
+				if reachB[p] && p != fb && b.Dominates(p) {
+					inCycle = true
+				}
+			}
+			if !inCycle {
+				continue
+			}
+		}
+		if reachB[sb] && fb.Dominates(sb) {
+			return false
+		}
+	}
+	return true
+}
+
+func instrIndexIn(in ssa.Instruction) int {
+	for i, x := range in.Block().Instrs {
+		if x == in {
+			return i
+		}
+	}
+	return -1
+}
+
+// loadsEqual: a and b are loads of the same local cell and nothing is stored
+// into it between them (a's block dominates b's).
+func loadsEqual(a, b ssa.Value) bool {
+	ca, cb := localCellOfLoad(a), localCellOfLoad(b)
+	if ca == nil || ca != cb {
+		return false
+	}
+	ia, ib := a.(ssa.Instruction), b.(ssa.Instruction)
+	if ia.Block() == ib.Block() {
+		lo, hi := ia, ib
+		if instrIndexIn(lo) > instrIndexIn(hi) {
+			lo, hi = hi, lo
+		}
+		for _, st := range cellStores(ca) {
+			if st.Block() == lo.Block() && instrIndexIn(st) > instrIndexIn(lo) && instrIndexIn(st) < instrIndexIn(hi) {
+				return false
+			}
+		}
+		return true
+	}
+	if !ia.Block().Dominates(ib.Block()) {
+		return false
+	}
+	return noStoreBetweenUpTo(ca, ia, ib.Block(), ib)
+}
+
+// resolveLoad: the value a load of a local cell yields, when one store into the
+// cell dominates the load and nothing is stored in between.
+func resolveLoad(v ssa.Value) ssa.Value {
+	cell := localCellOfLoad(v)
+	if cell == nil {
+		return v
+	}
+	ld := v.(ssa.Instruction)
+	var best *ssa.Store
+	for _, st := range cellStores(cell) {
+		sb := st.Block()
+		if sb == ld.Block() {
+			if instrIndexIn(st) > instrIndexIn(ld) {
+				continue
+			}
+			// no later store before the load in this block
+			later := false
+			for _, st2 := range cellStores(cell) {
+				if st2 != st && st2.Block() == sb && instrIndexIn(st2) > instrIndexIn(st) && instrIndexIn(st2) < instrIndexIn(ld) {
+					later = true
+				}
+			}
+			if !later {
+				return st.Val
+			}
+			continue
+		}
+		if sb.Dominates(ld.Block()) && noStoreBetweenUpTo(cell, st, ld.Block(), ld) {
+			best = st
+		}
+	}
+	if best != nil {
+		// (noStoreBetween counts every store in the load's block; stores after
+		// the load there only make this more conservative)
+		return best.Val
+	}
+	return v
+}
+
+// cellNilnessAt: nil-ness of the content of a local cell (an error variable)
+// at the end of block b, from the last store in b or from a dominating test of
+// a load that nothing was stored after.
+func cellNilnessAt(cell *ssa.Alloc, b *ssa.BasicBlock) nilState {
+	if cellEscapes(cell) {
+		return nilUnknown
+	}
+	for _, st := range cellStores(cell) {
+		if st.Parent() != cell.Parent() {
+			return nilUnknown
+		}
+	}
+	// last store in b itself
+	var last *ssa.Store
+	for _, in := range b.Instrs {
+		if st, ok := in.(*ssa.Store); ok && st.Addr == ssa.Value(cell) {
+			last = st
+		}
+	}
+	if last != nil {
+		return nilnessAt(last.Val, b)
+	}
+	refs := cell.Referrers()
+	if refs == nil {
+		return nilUnknown
+	}
+	for _, r := range *refs {
+		u, ok := r.(*ssa.UnOp)
+		if !ok || u.Op != token.MUL {
+			continue
+		}
+		if u.Block() != b && !u.Block().Dominates(b) {
+			continue
+		}
+		if !noStoreBetween(cell, u, b) {
+			continue
+		}
+		if st := dominatingFact(u, b); st != nilUnknown {
+			return st
+		}
+	}
+	// a dominating store of a value of known nil-ness with nothing after it
+	for _, st := range cellStores(cell) {
+		if (st.Block() == b || st.Block().Dominates(b)) && noStoreBetween(cell, st, b) {
+			if ns := nilnessAt(st.Val, b); ns != nilUnknown {
+				return ns
+			}
+		}
+	}
+	return nilUnknown
+}
+
 // branchFact returns the fact that edge pred->succ establishes about v.
 func branchFact(pred, succ *ssa.BasicBlock, v ssa.Value) nilState {
 	if len(pred.Instrs) == 0 {
@@ -480,8 +682,11 @@ func branchFact(pred, succ *ssa.BasicBlock, v ssa.Value) nilState {
 	} else {
 		return nilUnknown
 	}
-	if other != v && !(sameValue(other, v)) {
-		return nilUnknown
+	if other != v && !(sameValue(other, v)) && !loadsEqual(other, v) {
+		// the test is on a load of a variable that holds v
+		if r := resolveLoad(other); r == other || (r != v && !sameValue(r, v)) {
+			return nilUnknown
+		}
 	}
 	trueEdge := pred.Succs[0] == succ
 	if (bo.Op == token.EQL) == trueEdge {
